@@ -50,7 +50,7 @@ def evaluate(case):
     anns = [((a, b),) + sentinels(k) for k, (a, b) in enumerate(spans)]
     target = source if source else plain
     res.label("mode:" + mode, "dmp" if dmp else "difflib", "source" if source else "no-source")
-    out = call(annotate_citations, plain, anns, source_text=source, unbalanced_tags=mode, use_dmp=dmp)
+    out = call(annotate_citations, plain, iter(anns) if case.get("iter") else anns, source_text=source, unbalanced_tags=mode, use_dmp=dmp)
     if isinstance(out, Raised):
         res.v(f"raises[{mode}]:{out.type}@{out.site}", f"{out!r} for plain={plain!r} spans={spans} source={source!r}")
     else:
@@ -123,7 +123,7 @@ def _case(draw):
         a = draw(st.integers(0, len(plain)))
         b = draw(st.integers(a, len(plain)))
         spans.append([a, b])
-    return {"plain": plain, "anns": spans, "source": source, "mode": draw(st.sampled_from(MODES)), "dmp": draw(st.booleans())}
+    return {"plain": plain, "anns": spans, "source": source, "mode": draw(st.sampled_from(MODES)), "dmp": draw(st.booleans()), "iter": draw(st.integers(0, 4)) == 0}
 
 
 @st.composite
